@@ -331,6 +331,23 @@ pub fn gen_c10(rng: &mut Rng, thorough: bool) -> Vec<Tagged> {
         out.push(("tied-many-parameters-conv".into(), Case::Net(spec.clone(), NetCmd::Learn { data, val: None, batch: 1, epochs: 2 })));
         out.push(("tied-many-parameters-conv-params".into(), Case::Net(spec, NetCmd::Shapes)));
     }
+    // a spatial block with INPUT SKIPS and two or more loops in front of a dense layer: the library's backward pass
+    // refuses it (see DESIGN D2, "observed, outside the given properties"); model and implementation agree on that
+    for loops in [2usize, 3] {
+        let input = Sh::Sp(2, 4, 4);
+        let ls = vec![Simple::Conv { filters: 2, kernel: (3, 3), stride: (1, 1), padding: (1, 1), dilation: (1, 1), act: Act::Tanh, dropout: None }];
+        let bw = match block_weights(rng, &ls, input, 2) { Some(b) => b, None => continue };
+        let mut spec = NetSpec::new(input.to_shape());
+        spec.layers.push(LayerSpec::Block { layers: ls, loops, inskips: true, outskips: false, acc: Acc::Mean });
+        let d = Simple::Dense { out: 2, act: Act::Linear, bias: true, dropout: None };
+        spec.weights = Some(vec![bw, LW::One(rand_w(rng, &d, Sh::Flat(32), 2))]);
+        spec.layers.push(LayerSpec::One(d));
+        spec.opt = Opt::SGD { lr: 0.01, decay: None };
+        spec.obj = Obj::MSE;
+        let data = rand_data(rng, 1, input, Sh::Flat(2), Obj::MSE);
+        out.push(("spatial-block-inskips-then-dense-learn-refused".into(), Case::Net(spec.clone(), NetCmd::Learn { data: data.clone(), val: None, batch: 1, epochs: 1 })));
+        out.push(("spatial-block-inskips-then-dense-predict".into(), Case::Net(spec, NetCmd::Predict(data[0].0.clone()))));
+    }
     // blocks with a max-pool layer: the parameter-free couple is skipped, the others stay tied
     for r in 0..(if thorough { 36 } else { 12 }) {
         if let Some((mut spec, input, outsh)) = pool_block_net(rng, r, 2, false) {
